@@ -230,9 +230,14 @@ SNIPPETS = [
 ]
 
 
+# blocks that may interrupt a paragraph: written directly under a paragraph line, without the blank line every other family puts between blocks
+PARA_LIKE = ("para", "link", "emph", "digits")
+INTERRUPTERS = ("bullet", "bullet_esc", "olistfirst", "listfirst", "task", "otask", "startask", "heading", "quote", "code", "hr", "alert", "nested", "fn_first_in_item")
+
+
 def eval_p(job):
-    (na, a), (nb, b), opts = job
-    x = a + "\n\n" + b + "\n"
+    (na, a), (nb, b), opts = job[:3]
+    x = a + (job[3] if len(job) > 3 else "\n\n") + b + "\n"
     r = docs.eval_text(x, opts)
     r.update(src=x, opts=opts, pair=[na, nb])
     r.pop("mdit_tree_in", None)
@@ -241,6 +246,7 @@ def eval_p(job):
 
 def run_family_p(chk: Check, tier: str) -> None:
     jobs = [(sa, sb, o) for sa in SNIPPETS for sb in SNIPPETS for o in (OPTS_S if tier == "thorough" else OPTS_S[:1])]
+    jobs += [(sa, sb, o, "\n") for sa in SNIPPETS if sa[0] in PARA_LIKE for sb in SNIPPETS if sb[0] in INTERRUPTERS for o in (OPTS_S if tier == "thorough" else OPTS_S[:2])]
     traces, metas = [], {}
     for tid, (job, r) in enumerate(zip(jobs, pmap(eval_p, jobs, chunksize=40)), 1):
         chk.evaluations += 1
@@ -290,9 +296,9 @@ def eval_c(job):
     return r
 
 
-def d44_first_shape(tree) -> bool:
+def d44_first_shape(tree, any_enclosing=True) -> bool:
     from harness.props import c02
-    return c02.d44_first_shape(tree)
+    return c02.d44_first_shape(tree, any_enclosing=any_enclosing)
 
 
 def run_family_c(chk: Check, tier: str) -> None:
@@ -335,7 +341,7 @@ def run_family_c(chk: Check, tier: str) -> None:
         # D44, second face: a loose list that opens an item writes its separator before the marker of the enclosing item; inside
         # "- > " that line ('  >') opens a quote in front of the list.  Neutralisation: without the prefix-only lines that directly
         # precede a marker line the output reads like the source (up to tightness)
-        if "D44" in chk.open_findings and d44_first_shape(project.parse_marko(m["src"])):
+        if "D44" in chk.open_findings and d44_first_shape(project.parse_marko(m["src"]), any_enclosing=True):
             import re as _re
             ls = m["out"].split("\n")
             keep = [l for j, l in enumerate(ls) if not (l.strip(" >") == "" and j + 1 < len(ls) and _re.match(r"[ >]*(?:[-*+]|\d+[.)]) ", ls[j + 1]))]
